@@ -259,6 +259,99 @@ func runC08(r *mon.Run) {
 		}
 	})
 
+	// --- short components: r or s with two or more leading zero octets (2^-15
+	// per signature).  The nonce cannot be chosen through the API, so a seeded
+	// search over digests finds such signatures; each is then produced in every
+	// encoding and must parse back (oracle and library parsers) to the same
+	// (r,s,v) and verify.  A DER writer that mishandles short integers, or a
+	// compact writer that mis-pads them, only shows here.
+	r.Require("c08:short:r", "c08:short:s", "c08:short:asn1", "c08:short:compact", "c08:short:recoverable")
+	short := new(big.Int).Lsh(big.NewInt(1), 240)
+	r.Each("c08/short-components", r.N(16, 256), func(w *mon.W, i int) {
+		rng := w.Rng
+		d, _ := keyValue(rng)
+		priv := mustPriv(d)
+		Q := oracle.MulG(d)
+		entropy := rng.Bytes(32)
+		rfc := i%2 == 1
+		mk := func() io.Reader {
+			if rfc {
+				return secec.RFC6979SHA256()
+			}
+			return &fixedReader{data: entropy}
+		}
+		dig := rng.Bytes(32)
+		var rr, ss *big.Int
+		var v byte
+		found := false
+		for try := 0; try < 3000000; try++ {
+			dig[0], dig[1], dig[2], dig[3] = byte(try>>24), byte(try>>16), byte(try>>8), byte(try)
+			lr, ls, lv, err := priv.SignRaw(mk(), dig)
+			if err != nil {
+				w.Fail("c08/short:err", err.Error(), "d", hb(d), "digest", hx(dig))
+				return
+			}
+			rb, sb := lr.Bytes(), ls.Bytes()
+			if (rb[0] == 0 && rb[1] == 0) || (sb[0] == 0 && sb[1] == 0) {
+				rr, ss, v, found = oracle.FromBytes(rb), oracle.FromBytes(sb), lv, true
+				break
+			}
+		}
+		if !found {
+			return // the required classes stay unreached -> inconclusive
+		}
+		if rr.Cmp(short) < 0 {
+			w.Class("c08:short:r")
+		}
+		if ss.Cmp(short) < 0 {
+			w.Class("c08:short:s")
+		}
+		det := []any{"d", hb(d), "digest", hx(dig), "entropy", hx(entropy), "rfc6979", rfc, "r", hb(rr), "s", hb(ss), "v", v}
+		w.Case(true, []byte("short"), b32(d), dig, entropy)
+		if i < 2 {
+			w.Sample(map[string]any{"monitor": "short-components", "d": hb(d), "digest": hx(dig), "r": hb(rr), "s": hb(ss)})
+		}
+		for ei, enc := range []secec.SignatureEncoding{secec.EncodingASN1, secec.EncodingCompact, secec.EncodingCompactRecoverable} {
+			w.Class([]string{"c08:short:asn1", "c08:short:compact", "c08:short:recoverable"}[ei])
+			sig, err := priv.Sign(mk(), dig, &secec.ECDSAOptions{Encoding: enc, SelfVerify: i%4 >= 2})
+			if err != nil {
+				w.Fail("c08/short:Sign", fmt.Sprintf("Sign(encoding %d) failed: %v", enc, err), det...)
+				continue
+			}
+			var pr, ps *big.Int
+			pv := -1
+			switch enc {
+			case secec.EncodingASN1:
+				var ok bool
+				if pr, ps, ok = oracle.DERParseSigStrict(sig); !ok {
+					w.Fail("c08/short:asn1", fmt.Sprintf("Sign produced %x, which is not the strict DER encoding of an in-range (r,s)", sig), det...)
+					continue
+				}
+				if !bytes.Equal(sig, oracle.DERWriteSig(rr, ss)) {
+					w.Fail("c08/short:asn1-canonical", fmt.Sprintf("Sign produced %x, expected the DER encoding %x", sig, oracle.DERWriteSig(rr, ss)), det...)
+				}
+				if l1, l2, lerr := secec.ParseASN1Signature(sig); lerr != nil || bigFromScalar(l1).Cmp(rr) != 0 || bigFromScalar(l2).Cmp(ss) != 0 {
+					w.Fail("c08/short:asn1-parse", "ParseASN1Signature does not return the signed (r,s)", det...)
+				}
+			default:
+				if len(sig) != 64+ei-1 {
+					w.Fail("c08/short:compact-len", fmt.Sprintf("compact signature has %d bytes", len(sig)), det...)
+					continue
+				}
+				pr, ps = oracle.FromBytes(sig[:32]), oracle.FromBytes(sig[32:64])
+				if len(sig) == 65 {
+					pv = int(sig[64])
+				}
+			}
+			if pr.Cmp(rr) != 0 || ps.Cmp(ss) != 0 || (pv >= 0 && pv != int(v)) {
+				w.Fail("c08/short:vs-SignRaw", fmt.Sprintf("Sign(encoding %d) encodes (r,s,v) = (%x,%x,%d), SignRaw gave (%x,%x,%d)", enc, pr, ps, pv, rr, ss, v), det...)
+			}
+			if !oracle.ECDSAVerify(Q, dig, pr, ps) || !priv.PublicKey().Verify(dig, sig, &secec.ECDSAOptions{Encoding: enc, RejectMalleable: true}) {
+				w.Fail("c08/short:verify", fmt.Sprintf("the encoded signature (encoding %d) does not verify", enc), det...)
+			}
+		}
+	})
+
 	// --- the four (R.y parity) x (s negated) classes with scripted entropy: the oracle
 	// cannot predict the hedged nonce, so it reconstructs k from (r,s) and the known d.
 	r.Each("c08/parity-classes", r.N(600, 20000), func(w *mon.W, i int) {
